@@ -35,7 +35,7 @@ CLASS_DEFAULTS = {
     'MethodNotFoundError': (-32601, 'Method not found'), 'InvalidParamsError': (-32602, 'Invalid params'),
     'InternalError': (-32603, 'Internal error'), 'ServerError': (-32000, 'Server error'),
     'Custom2001': (2001, 'custom error 2001'), 'Custom2002': (2002, 'custom error 2002'), 'Custom2003': (2003, 'custom error 2003'),
-    'Custom2004': (2004, 'custom error 2004'), 'SrvRange': (-32050, 'server range error'), 'IndepA': (3001, 'independent error'),
+    'Custom2004': (2004, 'custom error 2004'), 'SrvRange': (-32050, 'server range error'), 'IndepA': (3001, 'independent error'), 'ZeroCode': (0, 'zero code error'),
 }
 
 
@@ -89,6 +89,10 @@ def serve_element(req: Dict[str, Any], registry: List[Dict[str, Any]], behaviour
     mspec = next((m for m in registry if m['name'] == req['method']), None)
     if mspec is None:
         return Element(rid, 'lib-error', -32601, None, f'{kind}/unknown-method')
+    if mspec.get('ctor_raises'):
+        # a class based view whose constructor raises: the view is built before the parameters are looked at, the failure
+        # happens outside any method body -> internal error, nothing runs
+        return Element(rid, 'lib-error', -32603, None, f'{kind}/internal-error')
     bound = bind(mspec, req.get('params', []))
     if bound is None:
         return Element(rid, 'lib-error', -32602, None, f'{kind}/params-do-not-bind')
